@@ -19,5 +19,6 @@ def load_algopy():
     sys.path.insert(0, REPO)
     import algopy
     assert os.path.realpath(algopy.__file__).startswith(os.path.realpath(REPO)), algopy.__file__
+    from . import stubs  # registers the LU model / contract stubs
     _algopy = algopy
     return algopy
